@@ -104,9 +104,9 @@ QUICK_PLANS = [
 ]
 THOROUGH_PLANS = [
     ("1req-full", dict(maxreqs=1, first="MCAll", later="MCAll", disp="MCDispAll", held=0, cuts="FALSE")),
-    ("2req", dict(maxreqs=2, first="MCSmall", later="MCTiny", disp="MCDispAll", held=1, cuts="TRUE")),
-    ("3req", dict(maxreqs=3, first="MCTiny", later="MCTiny", disp="MCDispSmall", held=2, cuts="TRUE",
-                  rets='{"F", "1"}', ns="{1}", routes='{"direct"}')),
+    ("2req", dict(maxreqs=2, first="MCTiny", later="MCTiny", disp="MCDispSmall", held=1, cuts="TRUE")),
+    ("3req", dict(maxreqs=3, first="MCMicro", later="MCMicro", disp="MCDispMicro", held=1, cuts="TRUE",
+                  rets='{"F", "1"}', ns="{1}", routes='{"direct"}', modes="{2, 3, 4}")),
 ]
 # named deviations: (constant, clause TLC must report, constants of a small run that reaches it)
 SMALL = dict(maxreqs=2, first="MCSmall", later="MCTiny", disp="MCDispAll", held=1, cuts="FALSE", ns="{1}",
